@@ -255,6 +255,55 @@ def make_params(box, precisions=None):
     return ps
 
 
+class Shared:
+    """One parameter list (and the operator / generator objects built on it) used by a whole history of
+    operations, as a Problem's parameter list is in artap.  After every call the list is compared with a deep
+    copy taken at creation: nothing the property is about may modify the declared box."""
+
+    def __init__(self, rng, box, precisions=None):
+        import copy
+        self.box = list(box)
+        self.precisions = list(precisions) if precisions else [None] * len(box)
+        self.params = make_params(box, self.precisions)
+        for p in self.params:                      # keys the operators must ignore
+            if rng.random() < 0.3:
+                p["initial_value"] = rng.choice([0.0, 1.0, -3.5, 1e6])
+            if rng.random() < 0.2:
+                p["parameter_type"] = "real"
+        self.snapshot = copy.deepcopy(self.params)
+        self.objects = {}
+        self.calls = 0
+
+    def obj(self, key, factory):
+        if key not in self.objects:
+            self.objects[key] = factory()
+        return self.objects[key]
+
+    def check(self, ctx, what, inp):
+        self.calls += 1
+        if self.params != self.snapshot or any(type(a["bounds"]) is not type(b["bounds"]) or len(a["bounds"]) != len(b["bounds"])
+                                               for a, b in zip(self.params, self.snapshot)):
+            import copy
+            ctx.mismatches.append({"what": "%s modified the shared parameter list (call %d on it): %r became %r" % (
+                what, self.calls, self.snapshot, self.params), "case": inp})
+            self.snapshot = copy.deepcopy(self.params)
+
+
+def represent(rng, v, plain=False):
+    """the same vector as a list of floats, a list of numpy.float64 or a numpy array"""
+    import numpy as np
+    k = 0.0 if plain else rng.random()
+    if k < 0.7:
+        return list(v), "list"
+    if k < 0.85:
+        return [np.float64(x) for x in v], "list of numpy.float64"
+    return np.array([float(x) for x in v], dtype=np.float64), "ndarray"
+
+
+def same_bits(a, b):
+    return len(a) == len(b) and all(float(x).hex() == float(y).hex() for x, y in zip(a, b))
+
+
 # --------------------------------------------------------------------------------------------------------------
 def run(ctx):
     import os
@@ -266,7 +315,8 @@ def run(ctx):
             "index_error_cases": 0, "sbx_skipped_by_probability": 0, "sbx_coincident_coords": 0,
             "skipped_nan_tape": 0, "skipped_pm_zero_width": 0, "long_parent": 0,
             "position_reset_upper": 0, "position_reset_lower": 0, "position_kept": 0,
-            "complex_from_parent_in_rounding_slack": 0, "corpus_cases": 0}
+            "complex_from_parent_in_rounding_slack": 0, "corpus_cases": 0,
+            "representation": {}, "calls_on_reused_objects": 0, "mixed_histories": 0}
     cases, expected, meta = [], [], []
 
     def in_declared_box(box, v):
@@ -307,26 +357,31 @@ def run(ctx):
         meta.append(m)
 
     # ---------------------------------------------------------------- mutators
-    def mutator_case(kind, box, parent, prob, extra, src):
-        params = make_params(box)
+    def mutator_case(kind, box, parent, prob, extra, src, shared=None, plain=False):
+        sh = shared or Shared(rng, box)
+        params = sh.params
         if kind == "pm":
-            mut = ops.PmMutator(params, prob, extra["distribution_index"])
+            mut = sh.obj(("pm", prob, extra["distribution_index"]), lambda: ops.PmMutator(params, prob, extra["distribution_index"]))
             coq_kind = "OpPm"
             args = ()
         elif kind == "uniform":
-            mut = ops.UniformMutator(params, prob, extra["perturbation"])
+            mut = sh.obj(("uniform", prob, extra["perturbation"]), lambda: ops.UniformMutator(params, prob, extra["perturbation"]))
             coq_kind = "(OpUniform %s)" % fl(extra["perturbation"])
             args = ()
         else:
-            mut = ops.NonUniformMutation(params, prob, extra["max_iterations"], extra["perturbation"])
+            mut = sh.obj(("nonuniform", prob, extra["max_iterations"], extra["perturbation"]),
+                         lambda: ops.NonUniformMutation(params, prob, extra["max_iterations"], extra["perturbation"]))
             coq_kind = "OpNonUniform"
             args = (extra["iteration"],)
-        inp = {"op": kind, "box": [list(b) for b in box], "parent": list(parent), "probability": prob}
+        arg, rep_name = represent(rng, parent, plain)
+        hist["representation"][rep_name] = hist["representation"].get(rep_name, 0) + 1
+        inp = {"op": kind, "box": [list(b) for b in box], "parent": list(parent), "probability": prob, "parent_given_as": rep_name,
+               "call_number_on_this_operator_object": sh.calls + 1}
         inp.update(extra)
         with Recorder(ops) as rec:
             rec.shim.source = src
             try:
-                child = mut.mutate(list(parent), *args)
+                child = mut.mutate(arg, *args)
                 result = (list(child), [])
             except IndexError:
                 result = None
@@ -339,6 +394,12 @@ def run(ctx):
             tape = rec.cut()
         inp["draws"] = [v for k, v in tape if k == "D"]
         count_op(kind)
+        if not same_bits(arg, parent):
+            ctx.mismatches.append({"what": "%s mutation modified the parent vector it was given (%s): %r became %r" % (kind, rep_name, list(parent), [float(x) for x in arg]),
+                                   "case": inp})
+        sh.check(ctx, "%s mutation" % kind, inp)
+        if sh.calls > 1:
+            hist["calls_on_reused_objects"] += 1
         if result is None:
             hist["index_error_cases"] += 1
         else:
@@ -396,14 +457,19 @@ def run(ctx):
         mutator_case(kind, box, parent, prob, extra, draw_source(rng, prob))
 
     # ---------------------------------------------------------------- SBX
-    def sbx_case(box, p1, p2, prob, di, src):
-        params = make_params(box)
-        inp = {"op": "sbx", "box": [list(b) for b in box], "p1": list(p1), "p2": list(p2), "probability": prob, "distribution_index": di}
-        cx = ops.SimulatedBinaryCrossover(params, prob, di)
+    def sbx_case(box, p1, p2, prob, di, src, shared=None, plain=False):
+        sh = shared or Shared(rng, box)
+        params = sh.params
+        a1, rep1 = represent(rng, p1, plain)
+        a2, rep2 = represent(rng, p2, plain)
+        hist["representation"][rep1] = hist["representation"].get(rep1, 0) + 1
+        inp = {"op": "sbx", "box": [list(b) for b in box], "p1": list(p1), "p2": list(p2), "probability": prob, "distribution_index": di,
+               "parents_given_as": [rep1, rep2], "call_number_on_this_operator_object": sh.calls + 1}
+        cx = sh.obj(("sbx", prob, di), lambda: ops.SimulatedBinaryCrossover(params, prob, di))
         with Recorder(ops) as rec:
             rec.shim.source = src
             try:
-                c1, c2 = cx.cross(list(p1), list(p2))
+                c1, c2 = cx.cross(a1, a2)
                 result = (list(c1), list(c2))
             except Exception as e:
                 if isinstance(e, TypeError) and "complex" in str(e) and not (in_declared_box(box, p1) and in_declared_box(box, p2)):
@@ -414,6 +480,12 @@ def run(ctx):
             tape = rec.cut()
         inp["draws"] = [v for k, v in tape if k == "D"]
         count_op("sbx")
+        if not (same_bits(a1, p1) and same_bits(a2, p2)):
+            ctx.mismatches.append({"what": "SBX modified a parent vector it was given (%s / %s): %r, %r became %r, %r" % (
+                rep1, rep2, list(p1), list(p2), [float(x) for x in a1], [float(x) for x in a2]), "case": inp})
+        sh.check(ctx, "SBX", inp)
+        if sh.calls > 1:
+            hist["calls_on_reused_objects"] += 1
         oracle_child("sbx child 1", box, result[0], len(p1), inp)
         oracle_child("sbx child 2", box, result[1], len(p2), inp)
         if len(tape) == 1:
@@ -547,22 +619,41 @@ def run(ctx):
     for which in ("omopso", "smpso", "psoga"):
         position_case(which, [(0.0, 1.0)], [1.0], [math.inf])        # not representable in JSON
 
-    n_ops = ctx.pick(2400, 40000)
-    for i in range(n_ops):
-        k = rng.random()
-        if k < 0.22:
-            gen_mutator_case("pm")
-        elif k < 0.40:
-            gen_mutator_case("uniform")
-        elif k < 0.58:
-            gen_mutator_case("nonuniform")
-        elif k < 0.85:
-            gen_sbx_case()
-        else:
-            gen_position_case()
+    def pick_options(d):
+        mx = rng.choice([1, 2, 5, 50])
+        return {"prob": rng.choice([1.0, 0.5, 0.9, 1.0 / d, 0.3]), "sbx_prob": rng.choice([1.0, 1.0, 0.6, 0.9]),
+                "pm": {"distribution_index": rng.choice([0, 5, 20, 20, 100])}, "sbx_di": rng.choice([0, 5, 15, 15, 50]),
+                "uniform": {"perturbation": rng.choice([0.5, 0.1, 10.0, 50.0])},
+                "nonuniform": {"max_iterations": mx, "perturbation": rng.choice([0.5, 1.0, 5.0])}, "mx": mx}
 
-    ctx.coq_compare("c08_op", HEADER, "op_case", "op_obs", "c08_op_run", "op_obs_eqb", cases, expected, meta,
-                    shard=ctx.pick(300, 1500))
+    def history_op(sh, opt, kind):
+        """one operation of a history on the shared parameter list / long-lived operator objects"""
+        box = sh.box
+        if kind in ("pm", "uniform", "nonuniform"):
+            if kind == "pm" and any(float(lb) == float(ub) for lb, ub in box):
+                kind = "uniform"
+            parent = [gen_coord(rng, lb, ub, slack=False) for lb, ub in box]
+            extra = dict(opt[kind])
+            if kind == "nonuniform":
+                extra["iteration"] = rng.randint(0, opt["mx"])
+            mutator_case(kind, box, parent, opt["prob"], extra, draw_source(rng, opt["prob"]), shared=sh)
+        elif kind == "sbx":
+            p1 = [gen_coord(rng, lb, ub, slack=False) for lb, ub in box]
+            p2 = gen_second_parent(rng, p1, box)
+            p2 = [min(float(ub), max(float(lb), y)) for y, (lb, ub) in zip(p2, box)]
+            sbx_case(box, p1, p2, opt["sbx_prob"], opt["sbx_di"], draw_source(rng, opt["sbx_prob"]), shared=sh)
+        elif kind == "gen":
+            if all(abs(float(b)) <= 1e290 for bb in box for b in bb):
+                gen_vector_case(box, sh.precisions, rng.choice([1, 2, 3]), lambda: rng.choice([0.0, one]) if rng.random() < 0.1 else rng.random(), shared=sh)
+
+    def gen_stream():
+        d = rng.choice([1, 2, 2, 3, 4])
+        box = [gen_box(rng) for _ in range(d)]
+        sh = Shared(rng, box, [rng.choice([None, None, None, 0.5, 1e-3]) for _ in range(d)])
+        opt = pick_options(d)
+        kinds = rng.choice([["pm"], ["uniform"], ["nonuniform"], ["sbx"], ["pm", "sbx"], ["pm", "uniform", "nonuniform", "sbx", "gen"]])
+        for _ in range(rng.choice([3, 4, 6])):
+            history_op(sh, opt, rng.choice(kinds))
 
     # ================================================================= generators: gen_vector / RandomGenerator
     ghist = {"vectors": 0, "coordinates": 0, "near_tie_coordinates": 0, "quotient_beyond_2^52": 0, "declared_precision": 0,
@@ -570,8 +661,9 @@ def run(ctx):
     gcases, gexpected, gmeta = [], [], []
     real_utils_random = utils.random
 
-    def gen_vector_case(box, precisions, n_vectors, src):
-        params = make_params(box, precisions)
+    def gen_vector_case(box, precisions, n_vectors, src, shared=None):
+        sh = shared or Shared(rng, box, precisions)
+        params = sh.params
         draws = []
 
         def rnd():
@@ -580,12 +672,13 @@ def run(ctx):
             return v
         utils.random = rnd
         try:
-            g = ops.RandomGenerator(params)
+            g = sh.obj(("random_generator",), lambda: ops.RandomGenerator(params))
             g.init(n_vectors)
             vectors = g.generate()
         finally:
             utils.random = real_utils_random
         inp = {"generator": "RandomGenerator", "box": [list(b) for b in box], "precision": list(precisions)}
+        sh.check(ctx, "RandomGenerator.generate", inp)
         d = len(box)
         if len(vectors) != n_vectors or len(draws) != n_vectors * d:
             ctx.mismatches.append({"what": "RandomGenerator produced %d vectors with %d draws, expected %d and %d" % (len(vectors), len(draws), n_vectors, n_vectors * d),
@@ -669,13 +762,26 @@ def run(ctx):
             return rng.random()
         gen_vector_case(box, precs, rng.choice([1, 2, 3, 5]), src)
 
+    n_ops = ctx.pick(2000, 34000)
+    for i in range(ctx.pick(100, 1500)):
+        gen_stream()
+    for i in range(n_ops):
+        k = rng.random()
+        if k < 0.22:
+            gen_mutator_case("pm")
+        elif k < 0.40:
+            gen_mutator_case("uniform")
+        elif k < 0.58:
+            gen_mutator_case("nonuniform")
+        elif k < 0.85:
+            gen_sbx_case()
+        else:
+            gen_position_case()
+
     for box, precs, n, draws in corpus_gen:
         gen_vector_case(box, precs, n, const_src(draws))
     for _ in range(ctx.pick(500, 8000)):
         gen_gen_case()
-
-    ctx.coq_compare("c08_gen", HEADER, "gen_case", "nat", "c08_gen_run", "Nat.eqb", gcases, gexpected, gmeta,
-                    shard=ctx.pick(250, 1500))
 
     ctx.rule = ("operator cases: boxes from {unit, symmetric, negative, tiny (down to 3 ulp), huge (up to +-1e300), integer-typed, lb=ub, random}, "
                 "parents on / one ulp inside the bounds, mid-box, inside the generators' rounding slack, coincident / 1 ulp / around EPSILON apart (SBX), "
@@ -689,10 +795,15 @@ def run(ctx):
                 "9 box templates incl. declared precisions, evaluation failures injected with probability 0 / 0.15 / 0.4, prob_mutation default / 0.5 / 1 "
                 "(one case = one whole run; non-trivial unless it is an NSGA-II run with a single generation, which has no variation step)")
     rhist = {"runs": {}, "evaluated_vectors": 0, "failed_evaluations": 0, "coordinates_on_a_bound": 0, "generation_steps": 0,
-             "breed_passes": 0, "runs_aborted_by_complex_power": 0, "runs_skipped_nan": 0}
+             "breed_passes": 0, "runs_aborted_by_complex_power": 0, "runs_skipped_nan": 0, "swarm_reordered_steps": 0, "rerolled_individuals": 0,
+             "clipped_in_runs": 0, "children_dropped_by_duplicate_filter": 0}
     run_level(ctx, rhist)
     dhist = {"designs": {}, "coordinates": 0}
-    doe_level(ctx, dhist)
+    doe_level(ctx, dhist, {"history_op": history_op, "pick_options": pick_options, "hist": hist})
+    ctx.coq_compare("c08_op", HEADER, "op_case", "op_obs", "c08_op_run", "op_obs_eqb", cases, expected, meta,
+                    shard=ctx.pick(300, 1500))
+    ctx.coq_compare("c08_gen", HEADER, "gen_case", "nat", "c08_gen_run", "Nat.eqb", gcases, gexpected, gmeta,
+                    shard=ctx.pick(250, 1500))
     ctx.extra.update({"run_histogram": rhist, "doe_histogram": dhist})
     t_end = os.times()
     ctx.extra["cpu_s"] = {"python_user_sys": round(t_end.user - t_start.user + t_end.system - t_start.system, 1),
@@ -976,6 +1087,7 @@ def run_level(ctx, rhist, specs=None):
                 offs = events[end][1]
                 pos, got = take_evals(events, end + 1, offs)
                 s = {"events": bev, "rerolls": [g[1:] for g in got]}
+                rhist["children_dropped_by_duplicate_filter"] += max(0, 2 * len(bev) - len(offs))
                 if name == "NSGAII":
                     pos = skip_to(events, pos, ("truncate",))
                     merged, res = events[pos][1], events[pos][2]
@@ -1072,11 +1184,13 @@ def run_level(ctx, rhist, specs=None):
              "SMPSO": (asw.SMPSO, "ASmpso"), "PSOGA": (asw.PSOGA, "APsoga")}
     cases, expected, meta = [], [], []
 
-    def one_run(name, box, N, G, fail_p, pm_opt, correspond=True, seed=None):
+    def one_run(name, box, N, G, fail_p, pm_opt, correspond=True, seed=None, pc_opt=None):
+        import copy
         cls, coq_algo = ALGOS[name]
         bounds = [b for b, _ in box]
         precs = [p for _, p in box]
         params = make_params(bounds, precs)
+        params_before = copy.deepcopy(params)
         problem = LogProblem(parameters=params)
         problem.logger.setLevel(logging.CRITICAL)
         alg = cls(problem)
@@ -1088,6 +1202,11 @@ def run_level(ctx, rhist, specs=None):
             for attr in ("mutator", "uniform_mutator", "non_uniform_mutator"):
                 if getattr(alg, attr, None) is not None:
                     getattr(alg, attr).probability = pm_opt
+        if pc_opt is not None:
+            if name in ("NSGAII", "EpsMOEA", "PSOGA"):
+                alg.options['prob_cross'] = pc_opt
+            if getattr(alg, "crossover", None) is not None:
+                alg.crossover.probability = pc_opt
         if seed is None:
             seed = rng.getrandbits(32)
         pyrandom.seed(seed)
@@ -1096,7 +1215,7 @@ def run_level(ctx, rhist, specs=None):
         state["fail_rng"] = pyrandom.Random(seed ^ 0x5bd1e995)
         state["streak"] = {}
         inp = {"algorithm": name, "box": [list(b) for b in bounds], "precision": precs, "population_size": N, "generations": G,
-               "failure_probability": fail_p, "prob_mutation": pm_opt, "python_random_seed": seed}
+               "failure_probability": fail_p, "prob_mutation": pm_opt, "prob_cross": pc_opt, "python_random_seed": seed}
         crashed = None
         with Recorder(ops) as rec:
             install(rec)
@@ -1108,6 +1227,9 @@ def run_level(ctx, rhist, specs=None):
             finally:
                 uninstall()
         events = list(ev)
+        if problem.parameters != params_before or any(type(a["bounds"]) is not type(b["bounds"]) for a, b in zip(problem.parameters, params_before)):
+            ctx.mismatches.append({"what": "%s run modified the problem's parameter list: %r became %r" % (name, params_before, problem.parameters),
+                                   "case": inp})
         rhist["runs"][name] = rhist["runs"].get(name, 0) + 1
         evals = [e for e in events if e[0] == "eval"]
         rhist["evaluated_vectors"] += len(evals)
@@ -1151,6 +1273,10 @@ def run_level(ctx, rhist, specs=None):
             rhist["runs_skipped_nan"] += 1
             return
         rhist["generation_steps"] += len(mi["scripts"])
+        rhist["swarm_reordered_steps"] += sum(1 for sc in mi["scripts"] if "vel" in sc and sc["keep"] != list(range(len(sc["keep"]))))
+        rhist["rerolled_individuals"] += sum(1 for sc in mi["scripts"] for r in sc.get("rerolls", []) + sc.get("rerolls2", []) if r) + sum(1 for r in mi["rr0"] if r)
+        rhist["clipped_in_runs"] += sum(1 for sc in mi["scripts"] for t in sc.get("tapes", []) for e in t if e[0] == "P") + \
+            sum(1 for sc in mi["scripts"] for b in sc.get("events", []) for t in b[2:] for e in t if e[0] == "P")
         rhist["breed_passes"] += sum(len(s.get("events", [])) for s in mi["scripts"])
         cases.append("{| r_algo := %s; r_N := %s; r_pc := %s; r_pm := %s; r_params := %s; r_pop0 := %s; r_rr0 := %s; r_arch0 := %s; r_scripts := %s |}" % (
             coq_algo, nl(N), fl(mi["pc"]), fl(mi["pm"]), enc_params(bounds), enc_vecs(mi["pop0"]), enc_rr(mi["rr0"]),
@@ -1163,7 +1289,7 @@ def run_level(ctx, rhist, specs=None):
     if specs is not None:          # replay of stored runs: direct oracle only
         for sp in specs:
             one_run(sp["algorithm"], [(tuple(b), p) for b, p in zip(sp["box"], sp["precision"])], sp["population_size"], sp["generations"],
-                    sp["failure_probability"], sp["prob_mutation"], correspond=False, seed=sp["python_random_seed"])
+                    sp["failure_probability"], sp["prob_mutation"], correspond=False, seed=sp["python_random_seed"], pc_opt=sp.get("prob_cross"))
         return
     sizes = ctx.pick([2, 3, 5, 8], [2, 3, 5, 8, 12, 20])
     gens = ctx.pick([1, 2, 4], [1, 2, 4, 7])
@@ -1175,7 +1301,8 @@ def run_level(ctx, rhist, specs=None):
                     box = rng.choice(RUN_BOXES)
                     fail_p = rng.choice([0.0, 0.0, 0.0, 0.15, 0.4])
                     pm_opt = rng.choice([None, None, 0.5, 1.0])
-                    one_run(name, box, N, G, fail_p, pm_opt)
+                    pc_opt = rng.choice([None, None, 0.5, 0.0]) if pm_opt else rng.choice([None, None, 0.5])
+                    one_run(name, box, N, G, fail_p, pm_opt, pc_opt=pc_opt)
         one_run(name, RUN_BOXES[0], 1, 2, 0.0, None, correspond=False)       # population of one: direct oracle only
     ctx.coq_compare("c08_run", HEADER, "run_case", "run_obs", "c08_run_run", "run_obs_eqb", cases, expected, meta,
                     shard=ctx.pick(8, 16))
@@ -1185,7 +1312,7 @@ def run_level(ctx, rhist, specs=None):
 # --------------------------------------------------------------------------------------------------------------
 # design-of-experiment generators
 # --------------------------------------------------------------------------------------------------------------
-def doe_level(ctx, dhist):
+def doe_level(ctx, dhist, opf):
     import artap.operators as ops
     import artap.doe as doe
     rng = ctx.rng
@@ -1222,25 +1349,28 @@ def doe_level(ctx, dhist):
                     break
         return ok
 
-    def level_case(kind, box):
-        params = make_params(box)
+    def level_case(kind, box, shared=None):
+        sh = shared or Shared(rng, box)
+        params = sh.params
         if kind == "ff2":
-            g = ops.FullFactorGenerator(params)
+            g = sh.obj(("ff",), lambda: ops.FullFactorGenerator(params))
             g.init(False)
         elif kind == "ff3":
-            g = ops.FullFactorGenerator(params)
+            g = sh.obj(("ff",), lambda: ops.FullFactorGenerator(params))
             g.init(True)
         elif kind == "pb":
-            g = ops.PlackettBurmanGenerator(params)
+            g = sh.obj(("pb",), lambda: ops.PlackettBurmanGenerator(params))
         else:
-            g = ops.BoxBehnkenGenerator(params)
-        inp = {"generator": type(g).__name__, "center": kind == "ff3", "box": [list(b) for b in box]}
+            g = sh.obj(("bb",), lambda: ops.BoxBehnkenGenerator(params))
+        inp = {"generator": type(g).__name__, "center": kind == "ff3", "box": [list(b) for b in box],
+               "call_number_on_this_parameter_list": sh.calls + 1}
         cap.clear()
         try:
             rows = g.generate()
         except Exception as e:
             ctx.mismatches.append({"what": "%s raised %r" % (type(g).__name__, e), "case": inp})
             return
+        sh.check(ctx, type(g).__name__ + ".generate", inp)
         dhist["designs"][kind] = dhist["designs"].get(kind, 0) + len(rows)
         ctx.count(("doe", kind, tuple(box)), nontrivial=len(box) > 1)
         if not oracle_rows(type(g).__name__, box, rows, inp):
@@ -1255,9 +1385,10 @@ def doe_level(ctx, dhist):
         lexp.append("(Some %s)" % enc_vecs([[float(v) for v in row] for row in rows]))
         lmeta.append(dict(inp, designs=len(rows)))
 
-    def scaled_case(kind, box, number):
-        params = make_params(box)
-        g = ops.LHSGenerator(params) if kind == "lhs" else ops.HaltonGenerator(params)
+    def scaled_case(kind, box, number, shared=None):
+        sh = shared or Shared(rng, box)
+        params = sh.params
+        g = sh.obj((kind,), lambda: ops.LHSGenerator(params) if kind == "lhs" else ops.HaltonGenerator(params))
         g.init(number)
         seed = rng.getrandbits(31)
         doe.lhs = lambda n, samples=None, **kw: o_lhs(n, samples=samples, random_state=seed)
@@ -1268,6 +1399,7 @@ def doe_level(ctx, dhist):
         except Exception as e:
             ctx.mismatches.append({"what": "%s raised %r" % (type(g).__name__, e), "case": inp})
             return
+        sh.check(ctx, type(g).__name__ + ".generate", inp)
         dhist["designs"][kind] = dhist["designs"].get(kind, 0) + len(rows)
         ctx.count(("doe", kind, tuple(box), number, seed), nontrivial=True)
         if not oracle_rows(type(g).__name__, box, rows, inp):
@@ -1283,9 +1415,10 @@ def doe_level(ctx, dhist):
             sexp.append("0%nat")
             smeta.append(dict(inp, unit_row=wr, design=[float(v) for v in row]))
 
-    def grid_case(box, number):
-        params = make_params(box)
-        g = ops.UniformGenerator(params)
+    def grid_case(box, number, shared=None):
+        sh = shared or Shared(rng, box)
+        params = sh.params
+        g = sh.obj(("grid",), lambda: ops.UniformGenerator(params))
         g.init(number)
         inp = {"generator": "UniformGenerator", "number": number, "box": [list(b) for b in box]}
         try:
@@ -1293,6 +1426,7 @@ def doe_level(ctx, dhist):
         except Exception as e:
             ctx.mismatches.append({"what": "UniformGenerator raised %r" % (e,), "case": inp})
             return
+        sh.check(ctx, "UniformGenerator.generate", inp)
         dhist["designs"]["grid"] = dhist["designs"].get("grid", 0) + len(rows)
         ctx.count(("doe", "grid", tuple(box), number), nontrivial=True)
         if not oracle_rows("UniformGenerator", box, rows, inp):
@@ -1316,9 +1450,30 @@ def doe_level(ctx, dhist):
             box.append(b)
         return box
 
+    def mixed_history():
+        """generators and operators of different kinds, in random order, on ONE parameter list"""
+        d = rng.choice([2, 3, 3, 4])
+        box = doe_box(d)
+        sh = Shared(rng, box, [rng.choice([None, None, 0.5, 1e-3]) for _ in range(d)])
+        opt = opf["pick_options"](d)
+        kinds = ["ff2", "ff3", "pb", "lhs", "halton", "grid", "pm", "uniform", "nonuniform", "sbx", "gen"] + (["bb", "bb"] if d >= 3 else [])
+        opf["hist"]["mixed_histories"] += 1
+        for _ in range(rng.choice([3, 5, 7])):
+            k = rng.choice(kinds)
+            if k in ("ff2", "ff3", "pb", "bb"):
+                level_case(k, box, shared=sh)
+            elif k in ("lhs", "halton"):
+                scaled_case(k, box, rng.choice([1, 2, 4]), shared=sh)
+            elif k == "grid":
+                grid_case(box, rng.choice([2, 3]), shared=sh)
+            else:
+                opf["history_op"](sh, opt, k)
+
     doe.construct_df = cdf
     doe.construct_df_from_random_matrix = crand
     try:
+        for _ in range(ctx.pick(40, 600)):
+            mixed_history()
         level_case("ff3", [(0.0, 1.0), (-5, 5)])
         level_case("bb", [(0.0, 1.0), (-7.5, -2.25), (1e6, 1e12)])
         level_case("pb", [(0.0, 1e-12), (-1e300, 1e300), (2.0, 2.0)])
@@ -1367,7 +1522,8 @@ def replay(ctx, data):
             if op.startswith("run/"):
                 before = len(ctx.oracle_failures)
                 run_level(ctx, {"runs": {}, "evaluated_vectors": 0, "failed_evaluations": 0, "coordinates_on_a_bound": 0,
-                                "generation_steps": 0, "breed_passes": 0, "runs_aborted_by_complex_power": 0, "runs_skipped_nan": 0}, specs=[inp])
+                                "generation_steps": 0, "breed_passes": 0, "runs_aborted_by_complex_power": 0, "runs_skipped_nan": 0,
+                                "children_dropped_by_duplicate_filter": 0}, specs=[inp])
                 new = ctx.oracle_failures[before:]
                 print("  now   :", new[0]["what"] if new else "every evaluated design is inside the box")
                 again += bool(new)
